@@ -174,6 +174,27 @@ def c14_random(rng):
     return {"events": events, "rules": rules, "draws": draws, "tag": "random"}
 
 
+def c14_sendfail(rng):
+    """like c14_random, plus a window in which sendmsg() towards one endpoint raises (a transport
+    error reported synchronously, from inside the send); judged by the oracle only"""
+    s = c14_random(rng)
+    events = [e for e in s["events"] if e[0] not in ("A", "E")]
+    used = {e[1] for e in events}
+    remotes = sorted({e[3] for e in events if e[0] == "S"})
+    remote = rng.choice(remotes)
+    t_on = rng.randrange(500, max(1000, events[-1][1] + 6 * M))
+    while t_on in used:
+        t_on += 1
+    t_off = t_on + rng.choice([50, 3 * M, 10 * M, 100 * M])
+    while t_off in used:
+        t_off += 1
+    events += [["F", t_on, remote, True], ["F", t_off, remote, False]]
+    events.sort(key=lambda e: e[1])
+    events.append(far_end(events))
+    return {"events": events, "rules": s["rules"], "draws": s["draws"], "tag": "sendfail",
+            "oracle_only": "synchronous-send-error"}
+
+
 def c14_boundary():
     scripts = []
     # three CONs and a NON to A, one CON to B; ACK, RST, silence, error variations
